@@ -1,5 +1,5 @@
 """Mapping property -> rules, with the explanation that goes into the evidence."""
-from .rules import tree_rules, order_rules, opt_rules, gram_rules
+from .rules import tree_rules, order_rules, opt_rules, gram_rules, driver_rules
 
 RULES = {
     'R-LINK': tree_rules.r_link,
@@ -23,6 +23,10 @@ RULES = {
     'R-IDCOUNTER': gram_rules.r_idcounter,
     'R-SORTEDPOS': gram_rules.r_sortedpos,
     'R-DISCONT': gram_rules.r_discont,
+    'R-FRAMEFILE': driver_rules.r_framefile,
+    'R-DISPATCH': driver_rules.r_dispatch,
+    'R-SPLITARITH': driver_rules.r_splitarith,
+    'R-STATE': driver_rules.r_state,
 }
 
 # minimum number of instances per rule, confirmed by hand on the tree the checker was built for
